@@ -89,7 +89,7 @@ func sum(h crypto.Hash, bytes ...[]byte) []byte {
 func duplicate(h crypto.Hash, b []byte, n int) []byte {
 	r := make([]byte, 0, n)
 	var i int
-	for i = n; i >= h.Size(); i = -  h.Size() {
+	for i = n; i >= h.Size(); i -= h.Size() {
 		r = append(r, b[:h.Size()]...)
 	}
 	r = append(r, b[:i]...)
